@@ -17,7 +17,7 @@ from . import queries
 
 BACKENDS = ('shared', 'disjoint')
 NODE_IDS = ['a', 'b', 'c', 'd', 'e', 'x y', 'q"1']
-CLASSES = ['NetworkNode', 'Component', 'NetworkService', 'ConnectionPoint', 'Link']
+CLASSES = ['NetworkNode', 'Component', 'NetworkService', 'ConnectionPoint', 'Link', 'CompositeLink', 'CompositeNode']
 RELS = ['has', 'connects', 'depends']
 STR_PROPS = ['P0', 'P1', 'Name', 'Type', 'Site']
 INT_PROPS = ['I0']
@@ -41,7 +41,7 @@ BASE_MIX = {
     'list_all_node_ids': 2, 'get_all_nodes_by_class': 1, 'get_all_nodes_by_class_and_type': 1,
     'node_exists': 1, 'check_node_unique': 1, 'graph_exists': 1, 'get_stitch_nodes': 1, 'validate_graph': 1,
     'find_matching_nodes': 1, 'merge_nodes': 2, 'clone_graph': 2, 'delete_graph': 2, 'cast_graph': 1,
-    'import_text': 6, 'roundtrip': 3,
+    'import_text': 6, 'roundtrip': 3, 'new_importer': 0.6,
     'q_first': 2, 'q_two_hop': 2, 'q_shortest': 2, 'q_hops': 1, 'q_parent': 1, 'q_peers': 1, 'q_cps': 1,
 }
 PROP_BOOST = {
@@ -381,6 +381,8 @@ class W1World(World):
             n = self.pick_node(rng, g)
             cands = [k for k, v in sorted(m.nodes.get((g, n), {}).items()) if isinstance(v, str)]
             s.update(n=n, name=rng.choice(cands) if cands and rng.random() < 0.8 else 'Labels')
+        elif op == 'new_importer':
+            s.update(logger=rng.choice([None, 'logger', 'logger']), adopt=rng.random() < 0.5)
         elif op in ('list_all_node_ids', 'graph_exists', 'get_stitch_nodes', 'validate_graph', 'cast_graph',
                     'delete_graph'):
             if op == 'delete_graph':
@@ -566,6 +568,11 @@ class W1World(World):
             if sid is not None and ints and all(isinstance(i, int) for i in ints) and sid <= max(ints):
                 self.flag('C04', 'internal_ids_unique', {'store': b, 'symptom': 'counter_behind', 'op': self._cur_op},
                           'shared store: next internal id %r is not beyond the largest in use %r' % (sid, max(ints)))
+                # the same fact is C20's "no internal identifier is handed out twice" (sequential, incl. failing calls)
+                self.flag('C20', 'no_internal_id_twice', {'store': b, 'symptom': 'counter_behind', 'op': self._cur_op,
+                                                          'sequential': True},
+                          'shared store: next internal id %r is not beyond the largest in use %r: the next node gets an '
+                          'identifier that is already in use' % (sid, max(ints)))
         else:
             for gid in sorted(inst.graphs.keys()):
                 G = inst.graphs[gid]
@@ -587,6 +594,10 @@ class W1World(World):
                         and ctr[gid] <= max(ints):
                     self.flag('C04', 'internal_ids_unique', {'store': b, 'symptom': 'counter_behind',
                                                              'op': self._cur_op},
+                              'disjoint store graph %s: next internal id %r not beyond largest in use %r' %
+                              (gid, ctr[gid], max(ints)))
+                    self.flag('C20', 'no_internal_id_twice', {'store': b, 'symptom': 'counter_behind',
+                                                              'op': self._cur_op, 'sequential': True},
                               'disjoint store graph %s: next internal id %r not beyond largest in use %r' %
                               (gid, ctr[gid], max(ints)))
         for k in nodes:
@@ -890,6 +901,24 @@ class W1World(World):
         g = s['g']
         return self._read(s, lambda b: self.pg(b, g).check_node_unique(label=s['label'], name=s['name']),
                           lambda: self.model.check_node_unique(g, s['label'], s['name']))
+
+    def do_new_importer(self, s):
+        """another session opens its own importer on the same store (with or without a logger): everything stored
+        stays as it is; the new importer may replace the one this world keeps using"""
+        import logging
+        from fim.graph.networkx_property_graph import NetworkXGraphImporter
+        from fim.graph.networkx_property_graph_disjoint import NetworkXGraphImporterDisjoint
+        lg = logging.getLogger('simfim-session') if s.get('logger') else None
+        for b, cls in (('shared', NetworkXGraphImporter), ('disjoint', NetworkXGraphImporterDisjoint)):
+            try:
+                imp2 = cls(logger=lg)
+            except Exception as e:
+                self.flag('C04', 'frame_other_graphs', {'store': b, 'op': 'new_importer', 'symptom': 'raised'},
+                          'opening another importer on the %s store raised %r' % (b, e))
+                continue
+            if s.get('adopt'):
+                self.imp[b] = imp2
+        return set(), 'ok'
 
     def do_graph_exists(self, s):
         g = s['g']
